@@ -6,7 +6,10 @@ the handlers of ufl/algorithms/check_arities.py compute, transcribed as coded in
 spec/ArityRules.tla (the list tensor rule both as coded and as intended), and (c) the exact value of
 the node in an experiment of environments in which each form argument takes the values v, 0, 2v, -v,
 w, v+w (and iv in complex mode), so that "linear in argument n" (antilinear in the test function in
-complex mode) is decided on exact Gaussian rationals.  TLC checks  Accepts => Multilinear  and
+complex mode) is decided on exact Gaussian rationals.  Forms have two or three arguments (numbers 0,
+1, 2: the third is "treated as a trial function" by the complex-mode test), and an argument number may
+be split into parts (block systems: Argument(V, n, part)); all parts of a number are one form argument
+and vary together in the experiment, while the checker's tuples hold the (number, part) objects.  TLC checks  Accepts => Multilinear  and
 NonlinearOrAffine => ~Accepts  over every reachable term (fails for the list tensor rule as coded,
 holds for the intended rule) and dumps every term with the model's verdicts and semantic classes.
 
@@ -48,18 +51,20 @@ TLC_WORKERS = 4  # in total
 TLC_JOBS = 2  # concurrent TLC processes
 PY_WORKERS = 6
 NGROUPS = 2
-NARGS = 2
+NARGS = 2  # arguments of a form unless a slice uses the third one
 JAVA = "-DTLA-Library=" + os.path.join(os.path.dirname(os.path.dirname(os.path.dirname(os.path.abspath(__file__)))), "spec") + " -Xmx4g -XX:ParallelGCThreads=2"
 
 # ------------------------------------------------------------------------------------------------
 # Terminal pool (one per mode), slices (bounded instances), runs (one TLC process each)
 # roles: arg0 / arg1 (the Argument itself), grad0 / grad1 (grad of it), rval0 (ReferenceValue),
 #        rgrad0 (ReferenceGrad(ReferenceValue)), coef, geom (SpatialCoordinate), geoms (CellVolume)
-# An argument number has one scalar and one vector incarnation (v / vv): a slice uses one of them.
+# An argument number has one scalar and one vector incarnation (v / vv): a slice uses one of them;
+# or it is split into the parts 0 and 1 of a block system (v0, v1 / u0, u1): a slice then uses parts
+# only for that number and all parts it uses are the form's arguments with that number.
 # ------------------------------------------------------------------------------------------------
 
-ROLE_NUM = {"arg0": 0, "arg1": 1, "grad0": 0, "grad1": 1, "rval0": 0, "rgrad0": 0}
-ROLE_WRAP = {"arg0": "none", "arg1": "none", "grad0": "grad", "grad1": "grad", "rval0": "rval", "rgrad0": "rgrad"}
+ROLE_NUM = {"arg0": 0, "arg1": 1, "arg2": 2, "grad0": 0, "grad1": 1, "grad2": 2, "rval0": 0, "rgrad0": 0}
+ROLE_WRAP = {"arg0": "none", "arg1": "none", "arg2": "none", "grad0": "grad", "grad1": "grad", "grad2": "grad", "rval0": "rval", "rgrad0": "rgrad"}
 
 TERMS = {
     # name: (shape, role, underlying argument name)
@@ -71,6 +76,15 @@ TERMS = {
     "gu": ((2,), "grad1", "u"),
     "rv": ((), "rval0", "v"),
     "rgv": ((2,), "rgrad0", "v"),
+    # the third argument of a trilinear form
+    "w": ((), "arg2", "w"),
+    "ww": ((2,), "arg2", "ww"),
+    "gw": ((2,), "grad2", "w"),
+    # block systems: parts 0 and 1 of the test / trial function
+    "v0": ((), "arg0", "v0"),
+    "v1": ((), "arg0", "v1"),
+    "u0": ((), "arg1", "u0"),
+    "u1": ((), "arg1", "u1"),
     "f": ((), "coef", None),
     "g": ((), "coef", None),
     "c": ((2,), "coef", None),
@@ -78,6 +92,10 @@ TERMS = {
     "vol": ((), "geoms", None),
 }
 TERM_ORDER = list(TERMS)
+ARG_NAMES = sorted({b for _, r, b in TERMS.values() if r in ROLE_NUM})  # the Argument objects
+ARG_NUM = {b: ROLE_NUM[r] for _, r, b in TERMS.values() if r in ROLE_NUM}
+ARG_PART = {"v0": 0, "v1": 1, "u0": 0, "u1": 1}  # Argument.part(); None (-1 in the specification) otherwise
+DEFAULT_ARG = ("v", "u", "w")  # the argument of a number no terminal of the slice mentions
 LITS = {"one": Fraction(1), "two": Fraction(2), "onehalf": Fraction(3, 2), "imag": complex(0, 1)}
 ZEROS = {"z": (), "zz": (2,)}
 IDX = (10, 11)
@@ -88,19 +106,32 @@ class Slice:
     node bound, rank bound, index names; simulate = number of random behaviours per TLC worker
     (else the slice is explored exhaustively)."""
 
-    def __init__(self, name, use, ops, maxnodes, cm, idx=(10,), maxrank=1, simulate=None):
+    def __init__(self, name, use, ops, maxnodes, cm, idx=(10,), maxrank=1, simulate=None, group=""):
         self.name, self.use, self.ops, self.maxnodes, self.cm = name, list(use), sorted(ops), maxnodes, bool(cm)
-        self.idx, self.maxrank, self.simulate = list(idx), maxrank, simulate
+        self.idx, self.maxrank, self.simulate, self.group = list(idx), maxrank, simulate, group
         for n in self.use:
             if n not in TERMS and n not in LITS and n not in ZEROS:
                 raise MachineryError(f"slice {name}: unknown initial node {n}")
+        # "all the form's arguments" of a form made of the slice's terms: per number the first
+        # incarnation the slice uses, or all the parts it uses
+        per = {}
+        for n in self.use:
+            if n in TERMS and TERMS[n][1] in ROLE_NUM:
+                base = TERMS[n][2]
+                got = per.setdefault(ARG_NUM[base], [])
+                if got and (base in ARG_PART) != (got[0] in ARG_PART):
+                    raise MachineryError(f"slice {name}: argument {ARG_NUM[base]} with and without parts")
+                if not got or (base in ARG_PART and base not in got):
+                    got.append(base)
+        self.nargs = max([NARGS] + [k + 1 for k in per])
+        self.formargs = [a for k in range(self.nargs) for a in sorted(per.get(k, [DEFAULT_ARG[k]]), key=lambda b: ARG_PART.get(b, -1))]
 
     def to_json(self):
-        return {"name": self.name, "use": self.use, "ops": self.ops, "maxnodes": self.maxnodes, "cm": self.cm, "idx": self.idx, "maxrank": self.maxrank, "simulate": self.simulate}
+        return {"name": self.name, "use": self.use, "ops": self.ops, "maxnodes": self.maxnodes, "cm": self.cm, "idx": self.idx, "maxrank": self.maxrank, "simulate": self.simulate, "group": self.group}
 
     @staticmethod
     def from_json(d):
-        return Slice(d["name"], d["use"], d["ops"], d["maxnodes"], d["cm"], d["idx"], d["maxrank"], d.get("simulate"))
+        return Slice(d["name"], d["use"], d["ops"], d["maxnodes"], d["cm"], d["idx"], d["maxrank"], d.get("simulate"), d.get("group", ""))
 
 
 ALG = {"add", "sub", "neg", "mul", "div", "pow", "abs", "sqrt", "sign"}
@@ -132,6 +163,13 @@ def slices(tier):
         S("deep-r", ["v", "u", "f", "g", "c", "gv", "one", "two", "onehalf", "z", "zz"], DEEP, 6, False, idx=(10, 11), maxrank=2, simulate=50 if q else 500),
         S("deep-c", ["v", "u", "f", "c", "gu", "one", "two", "imag", "z", "zz"], (DEEP | {"conj", "real", "imag"}) - {"restrict", "pow"}, 6, True, idx=(10, 11), maxrank=2, simulate=40 if q else 350),
         S("deep-vec-c", ["vv", "uu", "c", "f", "two", "z", "zz"], {"inner", "dot", "outer", "conj", "mul", "index", "isum", "add", "sub", "list", "as_tensor", "div", "cond", "lt", "real"}, 5, True, idx=(10, 11), maxrank=2, simulate=25 if q else 250),
+        # ---- group "x" (own TLC runs, experiment with three arguments) ----
+        # trilinear forms: in complex mode the third argument is "treated as a trial function"
+        S("rank3-c", ["v", "u", "w", "f"], {"mul", "conj", "add"}, 3, True, group="x"),
+        S("rank3-r", ["v", "u", "w", "f", "two"], {"mul", "add", "div"}, 2 if q else 3, False, group="x"),
+        # block systems: the test / trial function split into parts (same number, different part)
+        S("parts-r", ["v0", "v1", "u0", "u1", "f", "c", "z"], {"list", "dot", "mul", "add"}, 2 if q else 3, False, group="x"),
+        S("parts-c", ["v0", "v1", "u0", "u1", "c"], {"list", "inner", "dot", "conj", "mul"}, 2 if q else 3, True, group="x"),
     ]
     if not q:
         out += [
@@ -150,10 +188,12 @@ def slices(tier):
 
 
 class Run:
-    """One TLC process: all slices of one mode, exhaustive or simulated."""
+    """One TLC process: all slices of one mode and group, exhaustive or simulated; the experiment
+    has as many arguments as the widest slice needs."""
 
     def __init__(self, name, cm, subs, simulate=None):
         self.name, self.cm, self.subs, self.simulate = name, cm, subs, simulate
+        self.nargs = max(s.nargs for s in subs)
         used = set(n for s in subs for n in s.use)
         self.terms = [n for n in TERM_ORDER if n in used]
         self.lits = [n for n in LITS if n in used]
@@ -171,14 +211,15 @@ class Run:
 
 def runs_of(sls):
     out = []
-    for cm in (False, True):
-        ex = [s for s in sls if s.cm == cm and not s.simulate]
-        si = [s for s in sls if s.cm == cm and s.simulate]
-        tag = "c" if cm else "r"
-        if ex:
-            out.append(Run("exh-" + tag, cm, ex))
-        if si:
-            out.append(Run("sim-" + tag, cm, si, simulate=sum(s.simulate for s in si)))
+    for group in sorted({s.group for s in sls}):
+        for cm in (False, True):
+            ex = [s for s in sls if s.cm == cm and s.group == group and not s.simulate]
+            si = [s for s in sls if s.cm == cm and s.group == group and s.simulate]
+            tag = ("c" if cm else "r") + group
+            if ex:
+                out.append(Run("exh-" + tag, cm, ex))
+            if si:
+                out.append(Run("sim-" + tag, cm, si, simulate=sum(s.simulate for s in si)))
     return out
 
 
@@ -226,7 +267,7 @@ class ExpPool:
 
     def __init__(self, run, seed, values=None):
         self.run = run
-        self.lay = Layout(run.cm)
+        self.lay = Layout(run.cm, run.nargs)
         self.nenv = self.lay.nenv
         if values is not None:
             self.values = values
@@ -284,7 +325,7 @@ class ExpPool:
         ents = []
         for n in self.run.terms:
             s, r, _ = TERMS[n]
-            ents.append(f'[nm |-> "{n}", sh |-> {_seq(s)}, num |-> {_int(ROLE_NUM.get(r, -1))}, wrap |-> "{ROLE_WRAP.get(r, "none")}"]')
+            ents.append(f'[nm |-> "{n}", sh |-> {_seq(s)}, num |-> {_int(ROLE_NUM.get(r, -1))}, part |-> {_int(ARG_PART.get(TERMS[n][2], -1))}, wrap |-> "{ROLE_WRAP.get(r, "none")}"]')
         return "<<" + ", ".join(ents) + ">>"
 
     def tla_termval(self):
@@ -328,7 +369,8 @@ def mc_module(name, run, pool):
     subs = []
     for s in run.subs:
         ids = [str(run.init_names.index(n) + 1) for n in s.use]
-        subs.append(f"[ops |-> {_set(json.dumps(o) for o in s.ops)}, ids |-> {_set(ids)}, idx |-> {_set(map(str, s.idx))}, maxnodes |-> {s.maxnodes}, maxrank |-> {s.maxrank}]")
+        fargs = _set(f"<<{ARG_NUM[a]}, {_int(ARG_PART.get(a, -1))}>>" for a in s.formargs)
+        subs.append(f"[ops |-> {_set(json.dumps(o) for o in s.ops)}, ids |-> {_set(ids)}, idx |-> {_set(map(str, s.idx))}, maxnodes |-> {s.maxnodes}, maxrank |-> {s.maxrank}, fargs |-> {fargs}]")
     return f"""---- MODULE {name} ----
 EXTENDS Arity
 MC_Terminals == {pool.tla_terminals()}
@@ -406,13 +448,13 @@ class World:
         def space(shape, deg=1):
             return ufl.FunctionSpace(self.mesh, LagrangeElement(cell, deg, tuple(shape)))
 
-        self.args = {n: ufl.Argument(space(TERMS[n][0]), ROLE_NUM[TERMS[n][1]]) for n in ("v", "u", "vv", "uu")}
+        self.args = {n: ufl.Argument(space(TERMS[n][0]), ARG_NUM[n], ARG_PART.get(n)) for n in ARG_NAMES}
         self.obj = {}
         for n in run.terms:
             s, r, base = TERMS[n]
-            if r in ("arg0", "arg1"):
+            if r in ("arg0", "arg1", "arg2"):
                 o = self.args[n]
-            elif r in ("grad0", "grad1"):
+            elif r in ("grad0", "grad1", "grad2"):
                 o = ufl.grad(self.args[base])
             elif r == "rval0":
                 o = ReferenceValue(self.args[base])
@@ -431,21 +473,15 @@ class World:
             self.obj[n] = o
         self.init = [self.obj[n] for n in run.terms] + [ufl.as_ufl(_pynum(LITS[n])) for n in run.lits] + [ufl.zero(*ZEROS[z]) if ZEROS[z] else ufl.zero() for z in run.zeros]
         self.idx = {n: Index() for n in IDX}
-        # "all the form's arguments" of a slice: per number the incarnation the slice uses
-        self.allargs = []
-        for s in run.subs:
-            per = {}
-            for n in s.use:
-                if n in TERMS and TERMS[n][1] in ROLE_NUM:
-                    per.setdefault(ROLE_NUM[TERMS[n][1]], self.args[TERMS[n][2]])
-            self.allargs.append(tuple(per.get(k, self.args["vu"[k]]) for k in range(NARGS)))
+        # "all the form's arguments" of a slice: per number the incarnation / the parts the slice uses
+        self.allargs = [tuple(self.args[a] for a in s.formargs) for s in run.subs]
         self.envs = []
         for e in range(pool.nenv):
             env = AEnv()
             for n in run.terms:
                 s, r, base = TERMS[n]
                 tab = pool.values[e][n]
-                if r in ("grad0", "grad1"):
+                if r in ("grad0", "grad1", "grad2"):
                     for j in range(2):
                         env.t[(self.args[base], (j,), False)] = {c[:-1]: v for c, v in tab.items() if c[-1] == j}
                 elif r == "rval0":
@@ -566,6 +602,25 @@ def real_verdict(e, arguments, cm):
         return "reject", str(ex)[:120]
 
 
+def _part(a):
+    return -1 if a.part() is None else int(a.part())
+
+
+def _fa(arguments):
+    """Form arguments as the specification names them: [number, part] pairs."""
+    return [[a.number(), _part(a)] for a in arguments]
+
+
+def _nums(fa):
+    """The argument numbers of form arguments (all parts of a number are one argument)."""
+    return sorted({n for n, _ in fa})
+
+
+def _fa_compat(fa):
+    """Replay documents written before parts existed list bare numbers."""
+    return [[x, -1] if isinstance(x, int) else list(x) for x in fa]
+
+
 def abstract(e):
     """The DAG as the ArityChecker's dispatch sees it."""
     from ufl.classes import Argument, Zero
@@ -578,7 +633,8 @@ def abstract(e):
             h = getattr(c, "_ufl_handler_name_", None)
             if h is not None and (not chain or chain[-1] != h):
                 chain.append(h)
-        nodes.append({"h": chain, "n": o.number() if isinstance(o, Argument) else -1, "z": 1 if isinstance(o, Zero) else 0, "a": [pos[x] for x in o.ufl_operands]})
+        isarg = isinstance(o, Argument)
+        nodes.append({"h": chain, "n": o.number() if isarg else -1, "p": _part(o) if isarg else -1, "z": 1 if isinstance(o, Zero) else 0, "a": [pos[x] for x in o.ufl_operands]})
         pos[o] = len(nodes)  # keyed by structural equality, as the traversal itself
     return nodes
 
@@ -707,19 +763,19 @@ def process(w, rec, want_cfd=0):
         return out
     own = tuple(extract_arguments(obj))
     allargs = w.allargs[rec["sl"] - 1]
-    out["m"] = [a.number() for a in own]
+    out["m"] = _fa(own)
     fas = [own] + ([allargs] if len(own) != len(allargs) and all(a in allargs for a in own) else [])
     out["real"] = []
     for fa in fas:
         v, msg = real_verdict(e, fa, cm)
-        out["real"].append({"fa": [a.number() for a in fa], "v": v, "msg": msg})
+        out["real"].append({"fa": _fa(sorted(fa, key=lambda a: (a.number(), _part(a)))), "v": v, "msg": msg})
     out["nodes"] = abstract(e)
     try:
         vals = evaluate(w, e)
     except Exception as ex:  # noqa: BLE001 - evaluator limitation: never a verdict
         out["status"] = "eval-unsupported:" + type(ex).__name__ + ":" + str(ex)[:60]
         return out
-    out["sem"] = [list(lin_class(vals, w.pool.lay, n)) for n in range(NARGS)]
+    out["sem"] = [list(lin_class(vals, w.pool.lay, n)) for n in range(w.run.nargs)]
     out["zero"] = all(v is not None and v.is_zero() for v in vals)
     out["culprit"] = culprit(e)
     out["root"] = e._ufl_handler_name_
@@ -899,14 +955,14 @@ def judge(col, run, pool, recs, results, tv=None, ctx=None):
         for rv, tid in zip(r["real"], r["tids"]):
             fa = rv["fa"]
             acc = rv["v"] == "accept"
-            classes = [r["sem"][n] for n in fa]
-            # (ii) THE PROPERTY, on real objects only
-            bad = [(n, c) for n, c in zip(fa, classes) if c[0] == "no"]
+            classes = [r["sem"][n] for n in _nums(fa)]
+            # (ii) THE PROPERTY, on real objects only: linear in every argument NUMBER of the form
+            bad = [(n, c) for n, c in zip(_nums(fa), classes) if c[0] == "no"]
             if acc and bad:
                 kind = "affine" if all(c[1] == "affine" for _, c in bad) else "nonlinear"
                 fp = f"C14:accepts-{kind}:{r['culprit']}"
                 col.count("violating_terms:" + fp)
-                col.violation(fp, f"{prog_txt} (lowered: {r['lowered']}) is accepted with form arguments {fa}{' in complex mode' if run.cm else ''} but is {kind} in argument(s) {[n for n, _ in bad]}", dict(rdoc, fa=fa))
+                col.violation(fp, f"{prog_txt} (lowered: {r['lowered']}) is accepted with form arguments {_fa_txt(fa)}{' in complex mode' if run.cm else ''} but is {kind} in argument(s) {[n for n, _ in bad]}", dict(rdoc, fa=fa))
             elif acc and any(c[0] == "unknown" for c in classes):
                 col.count("accepted_semantics_undefined")
             elif acc:
@@ -1066,7 +1122,7 @@ def run(ctx, args):
             st = per_sub.setdefault(rn.subs[rec["sl"] - 1].name, {"integrands": 0, "mention_arguments": 0, "accepted": 0})
             st["integrands"] += 1
             if r["status"] == "ok":
-                ctx.evaluated(pool.nenv + 2 * len(r["real"]) + NARGS)
+                ctx.evaluated(pool.nenv + 2 * len(r["real"]) + rn.nargs)
                 st["accepted"] += r["real"][0]["v"] == "accept"
                 if r["m"]:
                     st["mention_arguments"] += 1
@@ -1118,7 +1174,11 @@ def as_coded_counterexample(ctx):
 
 
 def _bad_args(r, rv):
-    return [n for n in rv["fa"] if r["sem"][n][0] == "no"]
+    return [n for n in _nums(rv["fa"]) if r["sem"][n][0] == "no"]
+
+
+def _fa_txt(fa):
+    return [n if p < 0 else f"{n}.{p}" for n, p in fa]
 
 
 def report_counterexample(ctx, col, cex):
@@ -1177,9 +1237,9 @@ def replay(ctx, doc):
         return
     print(f"  handed to the checker: {res['lowered']}")
     for rv in res["real"]:
-        classes = {n: res["sem"][n] for n in rv["fa"]}
-        print(f"  form arguments {rv['fa']}: check_integrand_arity -> {rv['v']} {rv['msg']}; semantic class per argument {classes}")
-        if rv["v"] == "accept" and _bad_args(res, rv) and rv["fa"] == r.get("fa", rv["fa"]):
+        classes = {n: res["sem"][n] for n in _nums(rv["fa"])}
+        print(f"  form arguments {_fa_txt(rv['fa'])}: check_integrand_arity -> {rv['v']} {rv['msg']}; semantic class per argument {classes}")
+        if rv["v"] == "accept" and _bad_args(res, rv) and rv["fa"] == _fa_compat(r.get("fa", rv["fa"])):
             ctx.violation(doc["fingerprint"], doc["what"], r)
 
 
